@@ -83,7 +83,7 @@ CHECKS["C06"] = ("Proof: C06.used_blocks_never_modified — a whole --add leaves
                  "old_files_intact (controller level); a sector write touches one sector; the table setter rewrites bytes 1..160 only; adding nothing "
                  "saves the loaded sides and (fd) rewrites the image byte for byte. The frame on sectors of used blocks is proved inside the "
                  "invariant proof (mid_facts), the byte frame of table/catalog is checked. Tie/oracle: pre-images from tool histories, an "
-                 "independent writer (incl. full catalog + fragmented free space) and the bundled real image, then arbitrary batches; byte-level frame check.", D, "7 C06")
+                 "independent writer (incl. full catalog + fragmented free space) and the bundled real image (incl. batches reaching its never-formatted sides), then arbitrary batches; byte-level frame check.", D, "7 C06")
 CHECKS["C07"] = ("Proof: C07.images_of_one_two_or_four_sides — emulator images of 1 or 2 sides and 4-sided images of either flavour are loaded, listed and extracted exactly (load_save_n); C07.wellformed_image_extracted_exactly — for every four-sided image whose sides are consistent file systems (any writer, "
                  "any allocation order, fragmentation, deleted / never-used entries anywhere) with ordinary names, --extract returns 0 and writes "
                  "per side exactly the files the independent decoder Spec.Dos.files finds, in catalog order, with the content it assigns to the "
@@ -152,7 +152,7 @@ CHECKS["C20"] = ("Proof: tape create is a function of the sources' contents only
                  "list writes nothing, extract only under the destination; C20.performCore_pure — two disk batches on the same image whose sources agree "
                  "position by position on catalog name, extensions, option and content give the same image or the same failure, whatever the "
                  "verbosity, archive name and path spelling; same_source_of_spelling / tape_specFile_spelling — the directory part of a source "
-                 "path (relative, absolute, dotted directories) enters neither the disk nor the tape archive. Tie/oracle: paired real runs (twice, quiet/verbose, relative/absolute/dotted paths, "
+                 "path (relative, absolute, dotted directories) enters neither the disk nor the tape archive; C20.tape_/disk_extract_never_overwrites_archive — for every byte string given as archive and every destination no path --extract writes is the archive itself. Tie/oracle: archives holding a member named like themselves extracted onto / beside / away from the archive; paired real runs (twice, quiet/verbose, relative/absolute/dotted paths, "
                  "old target) must be byte-identical; archives and sources hashed and mtime-checked around reads.", D, "7 C20")
 
 PENDING = {}
